@@ -1387,6 +1387,9 @@ func (c *Conn) do(d *connDeadline, write func(time.Time, int32) error, read func
 	}
 
 	d.unsetConnReadDeadline()
+	if verifOn {
+		verifEvent("C.Body", c, id, verifMuxErr(err))
+	}
 	lock.Unlock()
 	return err
 }
@@ -1398,6 +1401,9 @@ func (c *Conn) doRequest(d *connDeadline, write func(time.Time, int32) error) (i
 	id = c.correlationID
 	err = write(d.setConnWriteDeadline(c.conn), id)
 	d.unsetConnWriteDeadline()
+	if verifOn {
+		verifEvent("C.Write", c, id, err == nil)
+	}
 
 	if err != nil {
 		// When an error occurs there's no way to know if the connection is in a
@@ -1423,11 +1429,17 @@ func (c *Conn) waitResponse(d *connDeadline, id int32) (deadline time.Time, size
 		if err != nil {
 			d.unsetConnReadDeadline()
 			c.conn.Close()
+			if verifOn {
+				verifEvent("C.Peek", c, id, "err", "close")
+			}
 			c.rlock.Unlock()
 			break
 		}
 
 		if id == rid {
+			if verifOn {
+				verifEvent("C.Peek", c, id, rid, "take")
+			}
 			c.skipResponseSizeAndID()
 			size, lock = int(rsz-4), &c.rlock
 			// Don't unlock the read mutex to yield ownership to the caller.
@@ -1440,12 +1452,18 @@ func (c *Conn) waitResponse(d *connDeadline, id int32) (deadline time.Time, size
 			// one it expects. This is a sign that the data we are reading on
 			// the wire is corrupted and the connection needs to be closed.
 			err = io.ErrNoProgress
+			if verifOn {
+				verifEvent("C.Peek", c, id, rid, "lone")
+			}
 			c.rlock.Unlock()
 			break
 		}
 
 		// Optimistically release the read lock if a response has already
 		// been received but the current operation is not the target for it.
+		if verifOn {
+			verifEvent("C.Peek", c, id, rid, "yield")
+		}
 		c.rlock.Unlock()
 	}
 
@@ -1494,6 +1512,9 @@ func (c *Conn) ApiVersions() ([]ApiVersion, error) {
 		return nil, err
 	}
 	defer lock.Unlock()
+	if verifOn {
+		defer verifEvent("C.Body", c, id, "unlock")
+	}
 
 	var errorCode int16
 	if size, err = readInt16(&c.rbuf, size, &errorCode); err != nil {
